@@ -410,6 +410,56 @@ func TestC31(t *testing.T) {
 	}
 	rec.SetExtra("n_langview_sweep_cases", sweep)
 
+	// ---- fixed scenarios: a datum-only transaction next to a script nothing uses -------------
+	// (the ledger hashes  <no redeemers> || datums || a0 ; see findings/C31.md)
+	for _, era := range plutusEras {
+		roles := []scriptRole{roleWitUnneeded}
+		if era >= Babbage {
+			roles = append(roles, roleRefInert, roleSpentInert)
+		}
+		for _, role := range roles {
+			c := &c31Case{Era: era, IsValid: true, NDatums: 1, CM: map[uint][]int64{0: {1, 2}, 1: {3, 4, 5}, 2: {6}, 3: {7}},
+				Scripts: []pScript{{Lang: maxLang(era), Bytes: []byte{1, 0, 0, 0x21}, Role: role}}}
+			c.layout(nil)
+			c.Datums = xcbor.A(xcbor.U(42))
+			probe := c.assemble(nil)
+			dOrig := originalWitnessField(probe, 4)
+			refHash := h256(refIntegrityPreimage(era, nil, dOrig, 1, refLangViews(nil, c.CM, LangViewOpts{})))
+			otherHash := h256(refIntegrityPreimage(era, nil, dOrig, 1, refLangViews([]uint{uint(maxLang(era) - 1)}, c.CM, LangViewOpts{})))
+			pr := defaultParams(era)
+			pr.CostModels = c.CM
+			for _, d := range []struct {
+				name string
+				h    []byte
+			}{{"correct", refHash}, {"languages-of-all-provided-scripts", otherHash}} {
+				raw := c.assemble(d.h)
+				ltx, err := decodeTx(era, raw)
+				if err != nil {
+					rec.Violation("C31:fixed:decode:"+era.String(), "fixed scenario does not decode: "+err.Error(), nil)
+					continue
+				}
+				rerr := scriptDataHashRule(era)(ltx, 0, c.state(), pr.forEra(era))
+				rec.Eval()
+				cs := c.sample(raw, d.name)
+				cs["tx_cbor_full"] = fmt.Sprintf("%x", raw)
+				cs["reference_hash"] = fmt.Sprintf("%x", refHash)
+				rec.NonTrivial(fmt.Sprintf("fixed %s %s %s", era, role, d.name), cs)
+				switch {
+				case d.name == "correct" && rerr != nil:
+					rec.Class("fixed_over_reject_correct_hash:" + role.String())
+				case d.name != "correct" && rerr == nil:
+					via := "script-reference"
+					if role == roleWitUnneeded {
+						via = "unneeded-witness-script"
+					}
+					rec.Violation("C31:"+era.String()+":language-of-unused-script-counted:"+via,
+						fmt.Sprintf("%s.UtxoValidateScriptDataHash accepts declared hash %x (over the language view of an unused PlutusV%d script, role %s); reference = %x",
+							era, d.h, maxLang(era), role, refHash), cs)
+				}
+			}
+		}
+	}
+
 	rec.Check(func(rt *rapid.T) {
 		c := genC31(rt)
 		era := c.Era
